@@ -343,7 +343,7 @@ class Driver:
     def __init__(self, ctx, res, root_spec, env):
         self.ctx, self.res, self.cc = ctx, res, ctx.cc
         self.env = env
-        self.mapping = {"$FX": ctx.sb.fx, "$DIR": ctx.dir}
+        self.mapping = {"$FX": ctx.sb.fx, "$DIR": ctx.dir, "$CWD": ctx.sb.root}
         self.root = spec.resolve(root_spec, self.mapping)
         self.built = spec.build(self.cc, self.root)
         self.keyfile = os.path.join(ctx.dir, "hist.key")
@@ -503,6 +503,45 @@ class Driver:
         pred = Prediction(clone(before.values), dict(before.flags))
         return {"kind": "serialize", "path": "", "raised": None, "label": True, "pred": pred, "before": before, "listed": False,
                 "serialize_error": exc}
+
+    def _op_dict_superset(self, op):
+        """Assign to a typed dict field a map that repeats all its current entries and adds new ones."""
+        cc, cfg = self.cc, self.cfg
+        path = self.concrete(op["path"])
+        if path is None:
+            return None
+        nd = self.node(path)
+        try:
+            cur = spec.get_path(cfg, path)
+        except Exception:
+            return None
+        if not isinstance(cur, dict) or nd is None or nd["kind"] != "field" or nd["family"] != "dict":
+            return None
+        new = dict(cur)
+        for k, v in op["add"]:
+            try:
+                new[spec.realize(cc, k)] = spec.realize(cc, v)
+            except TypeError:
+                return None
+        label, norm = model.accepts(nd, plain(new), self.env)
+        parent_path, key = spec.split_parent(path)
+        try:
+            parent = spec.get_path(cfg, parent_path) if parent_path else cfg
+        except Exception:
+            return None
+        before = self.snapshot()
+        if op.get("route") == "item" and "[" not in path:
+            exc = self._run(lambda: cfg.__setitem__(path, new))
+        else:
+            exc = self._run(lambda: setattr(parent, key, new))
+        pred = Prediction(clone(before.values), dict(before.flags))
+        if label is True:
+            pset(pred.values, path, norm)
+            pred.flags[path] = True
+        else:
+            pred.unpredicted = label is None
+        return {"kind": "set", "path": path, "raised": exc, "label": label, "norm": norm, "pred": pred, "before": before,
+                "listed": True, "node": nd, "value": plain(new), "superset": True}
 
     def _op_copy(self, op):
         cc, cfg = self.cc, self.cfg
